@@ -1109,3 +1109,20 @@ Lemma spelling_not_merged :
   exists gs, read file_spelling = Ok (gs, []) /\ map (fun g => length (m_pos g)) gs = [5] /\
              map obs gs = file_groups file_spelling.
 Proof. split; [reflexivity|]. eexists. split; [vm_compute; reflexivity|]. split; vm_compute; reflexivity. Qed.
+
+(* why [wf_list] asks every mesh but the last to have a triangle: ReadMesh renames a group without faces instead
+   of emitting it, so an empty mesh in the middle of a list comes back as one group fewer (at the end it is kept) *)
+Definition mesh_empty : mesh :=
+  {| m_name := ["e"%string]; m_idx := []; m_pos := []; m_uv := []; m_nrm := []; m_mats := [] |}.
+Lemma empty_group_dropped :
+  forallb wf_mesh [mesh_plain; mesh_empty; mesh_nrm] = true /\ wf_list [mesh_plain; mesh_empty; mesh_nrm] = false /\
+  (exists ls gs, write None [mesh_plain; mesh_empty; mesh_nrm] = Ok ls /\ valid ls = true /\
+                 read ls = Ok (gs, []) /\ map m_name gs = [["a"%string]; ["b"%string]]) /\
+  (exists ls gs, write None [mesh_plain; mesh_nrm; mesh_empty] = Ok ls /\ read ls = Ok (gs, []) /\
+                 map obs gs = map obs_written [mesh_plain; mesh_nrm; mesh_empty]).
+Proof.
+  split; [reflexivity|]. split; [reflexivity|]. split.
+  - eexists. eexists. split; [vm_compute; reflexivity|]. split; [vm_compute; reflexivity|].
+    split; vm_compute; reflexivity.
+  - eexists. eexists. split; [vm_compute; reflexivity|]. split; vm_compute; reflexivity.
+Qed.
